@@ -346,7 +346,13 @@ pub fn emit_state(out: &mut impl Write, vi: usize, st: &RawState, pieces: &[Vec<
             let mut t = [0u8; 4];
             let (phys, cs, len, tail_len) = g.verif_get_state(&mut b, &mut c, &mut t);
             let post = format!("{} {} {} {}", hex_u32s(&b[..phys]), len, hex(&t[..tail_len as usize]), hex(&c[..cs]));
-            let res: Vec<String> = opts.iter().map(|&o| result_str(g.finalize_with_options(&options_from_bits(o)), bin_len)).collect();
+            // each finalisation under its own catch_unwind: a panic under one option setting is a result
+            let res: Vec<String> = opts.iter().map(|&o| {
+                match std::panic::catch_unwind(std::panic::AssertUnwindSafe(|| result_str(g.finalize_with_options(&options_from_bits(o)), bin_len))) {
+                    Ok(s) => s,
+                    Err(_) => "panic".to_string(),
+                }
+            }).collect();
             // direct oracle C03: finalize does not disturb the generator
             let mut b2 = [0u32; 256];
             let mut c2 = [0u8; 3];
@@ -397,8 +403,14 @@ pub fn emit_state(out: &mut impl Write, vi: usize, st: &RawState, pieces: &[Vec<
                     writeln!(out, "ORACLE C03 finalize-disturbed-state-or-C10-monotonicity {}", head).unwrap();
                     writeln!(out, "ORACLE C10 option-monotonicity-or-finalize-disturbed-state {}", head).unwrap();
                 }
+                if res.iter().any(|r| r == "panic") {
+                    writeln!(out, "ORACLE C11 finalize-panicked {}", head).unwrap();
+                }
             }
-            Err(()) => writeln!(out, "{} => panic", head).unwrap(),
+            Err(()) => {
+                writeln!(out, "{} => panic", head).unwrap();
+                writeln!(out, "ORACLE C11 generator-panicked {}", head).unwrap();
+            }
         }
     })
 }
